@@ -51,27 +51,36 @@ Record Inv (s : state) : Prop := mkInv {
 }.
 
 (* ------------------------------------------------------------------------------------------- init *)
+Lemma list_sum_cons : forall x l, list_sum (x :: l) = x + list_sum l.
+Proof. reflexivity. Qed.
+
 Lemma ntok_todo_of : forall n sc, cnt is_tok_op (todo_of n sc) = nblocks sc * n.
 Proof.
   intros n sc. unfold todo_of, nblocks, final_ops. rewrite cnt_app, cnt_repeat. cbn [is_tok_op token ttok b2n].
-  induction sc as [|c r IH]; cbn [flat_map map list_sum cnt].
-  - lia.
-  - rewrite cnt_app. destruct c; cbn [ops_of_cmd blocks_of_cmd cnt is_tok_op contig token ttok b2n];
-      rewrite ?cnt_app, ?cnt_repeat; cbn [cnt is_tok_op token ttok b2n]; lia.
+  assert (H : cnt is_tok_op (flat_map (ops_of_cmd n) sc) = list_sum (map blocks_of_cmd sc) * n).
+  { induction sc as [|c r IH]; cbn [flat_map map cnt].
+    - reflexivity.
+    - rewrite cnt_app, list_sum_cons, IH.
+      destruct c; cbn [ops_of_cmd blocks_of_cmd cnt is_tok_op contig token ttok b2n];
+        rewrite ?cnt_app, ?cnt_repeat; cbn [cnt is_tok_op token ttok b2n]; lia. }
+  rewrite H. lia.
 Qed.
 
 Lemma nctg_todo_of : forall n sc, nctg_todo (todo_of n sc) = length (contig_sizes sc).
 Proof.
   intros n sc. unfold todo_of, nctg_todo, final_ops, contig_sizes. rewrite cnt_app, cnt_repeat.
   cbn [token ttok negb b2n].
-  induction sc as [|c r IH]; cbn [flat_map cnt length].
-  - lia.
-  - rewrite cnt_app, app_length. destruct c; cbn [ops_of_cmd cnt contig token ttok negb b2n length];
-      rewrite ?cnt_app, ?cnt_repeat; cbn [cnt token ttok negb b2n]; lia.
+  match goal with |- ?a + _ = ?b => assert (H : a = b) end.
+  { induction sc as [|c r IH]; cbn [flat_map cnt length].
+    - reflexivity.
+    - rewrite cnt_app, app_length, IH.
+      destruct c; cbn [ops_of_cmd cnt contig token ttok negb b2n length];
+        rewrite ?cnt_app, ?cnt_repeat; cbn [cnt token ttok negb b2n]; lia. }
+  rewrite H. lia.
 Qed.
 
 Lemma inflight_repeat : forall n r, inflight (repeat (mkW WPull r) n) = [].
-Proof. induction n; intros; cbn; auto. unfold inflight in *. cbn. apply IHn. Qed.
+Proof. induction n; intros; [reflexivity | unfold inflight in *; cbn; apply IHn]. Qed.
 
 Lemma Forall_repeat : forall A (P : A -> Prop) x n, P x -> Forall P (repeat x n).
 Proof. induction n; cbn; auto. Qed.
@@ -107,6 +116,71 @@ Proof.
   intros s s' H C. destruct s, s'. unfold same_core in C. cbn in C.
   destruct C as (? & ? & ? & ? & ? & ? & ? & ? & ? & ? & ? & ?). subst.
   destruct H. constructor; auto.
+Qed.
+
+(* ------------------------------------------------------------------------------- permutation helpers *)
+Lemma cnt_perm : forall A (f : A -> bool) l l', Permutation l l' -> cnt f l = cnt f l'.
+Proof. induction 1; cbn; lia. Qed.
+Lemma sumsz_perm : forall l l', Permutation l l' -> sumsz l = sumsz l'.
+Proof. induction 1; cbn; lia. Qed.
+Lemma Forall_perm : forall A (P : A -> Prop) l l', Permutation l l' -> Forall P l -> Forall P l'.
+Proof.
+  intros A P l l' H F. rewrite Forall_forall in *. intros x I. apply F.
+  eapply Permutation_in; [apply Permutation_sym; eauto | auto].
+Qed.
+Lemma qctg_perm : forall l l', Permutation l l' -> Permutation (qctg l) (qctg l').
+Proof.
+  unfold qctg. induction 1; cbn [filter map].
+  - constructor.
+  - destruct (negb (is_tok_item x)); cbn [map]; auto.
+  - destruct (negb (is_tok_item x)), (negb (is_tok_item y)); cbn [map]; auto. apply perm_swap.
+  - eapply perm_trans; eauto.
+Qed.
+Lemma qctg_cons : forall it l, qctg (it :: l) = if is_tok_item it then qctg l else iseq it :: qctg l.
+Proof. intros. unfold qctg. cbn [filter]. destruct (is_tok_item it); reflexivity. Qed.
+
+(* ------------------------------------------------------------------- steps that move one worker only *)
+Lemma inv_frame : forall s i wk wk',
+  Inv s -> nth_error (ws s) i = Some wk ->
+  wfw (bgen s) (stg s) (ground s) wk' ->
+  barcur (bgen s) wk' = barcur (bgen s) wk ->
+  insec (bgen s) wk' = insec (bgen s) wk ->
+  is_exited wk = false ->
+  (is_exited wk' = true -> closed s = true /\ items s = []) ->
+  (forall q, pc wk <> WSeg q) -> (forall q, pc wk' <> WSeg q) ->
+  (closed s = false -> 0 < cnt is_waitE (upd i wk' (ws s)) ->
+   length (items s) <= cnt is_wokenE (upd i wk' (ws s))) ->
+  Inv (set_ws s (upd i wk' (ws s))).
+Proof.
+  intros s i wk wk' HI E Hwf Hbar Hsec Hex Hex' Hs Hs' Hwake.
+  destruct HI. constructor; cbn [set_ws ws items cur closed nseq pst todo bcount bgen ground pushed segd]; auto.
+  - rewrite upd_length. auto.
+  - apply Forall_upd; auto.
+  - pose proof (cnt_upd _ (barcur (bgen s)) i wk' wk _ E). rewrite Hbar in H. destruct i_bc0. split; lia.
+  - unfold nsec, ntok_items, ntok_todo in *. cbn [set_ws ws items todo bgen].
+    pose proof (cnt_upd _ (insec (bgen s)) i wk' wk _ E). rewrite Hsec in H. lia.
+  - intros P. pose proof (cnt_upd _ is_exited i wk' wk _ E) as C. rewrite Hex in C.
+    destruct (is_exited wk') eqn:X; [auto|]. cbn in C. apply i_ex0. lia.
+  - intros D. specialize (i_done0 D). exfalso.
+    rewrite <- i_len0 in i_done0. rewrite (cnt_full_all _ _ _ _ _ i_done0 E) in Hex. discriminate.
+  - rewrite (inflight_upd_noseg _ _ _ _ E Hs Hs'). auto.
+Qed.
+
+(* ... and neither the old nor the new pc is inside not_empty.wait *)
+Lemma inv_frame_quiet : forall s i wk wk',
+  Inv s -> nth_error (ws s) i = Some wk ->
+  wfw (bgen s) (stg s) (ground s) wk' ->
+  barcur (bgen s) wk' = barcur (bgen s) wk ->
+  insec (bgen s) wk' = insec (bgen s) wk ->
+  is_exited wk = false -> is_exited wk' = false ->
+  (forall q, pc wk <> WSeg q) -> (forall q, pc wk' <> WSeg q) ->
+  is_waitE wk = false -> is_waitE wk' = false -> is_wokenE wk = false -> is_wokenE wk' = false ->
+  Inv (set_ws s (upd i wk' (ws s))).
+Proof.
+  intros. apply inv_frame with (wk := wk); auto; try congruence.
+  intros C P.
+  pose proof (cnt_upd _ is_waitE i wk' wk _ H0). pose proof (cnt_upd _ is_wokenE i wk' wk _ H0).
+  rewrite H8, H9 in H12. rewrite H10, H11 in H13. destruct H. cbn in *. apply i_wake0 in C; lia.
 Qed.
 
 End Inv.
